@@ -805,3 +805,279 @@ Proof.
   destruct rec as [rc |]; [| exact Hp]. subst rc. intros sizes HF.
   split; [apply sds_roundtrip_sd | apply sds_roundtrip_dfsd]; assumption.
 Qed.
+
+(* ------------------------------------------- deepening: the collapse does not move any element of the window *)
+Lemma seq_add : forall n b, seq b n = map (fun i => (b + i)%nat) (seq 0 n).
+Proof.
+  induction n; intro b; simpl; [reflexivity |]. f_equal; [lia |].
+  rewrite <- (seq_shift n 0), map_map. rewrite (IHn (S b)). apply map_ext. intros; lia.
+Qed.
+
+Lemma seq_mul_split : forall (A : Type) (g : nat -> A) m n,
+  map g (seq 0 (m * n)) = flat_map (fun j => map (fun i => g (j * n + i)%nat) (seq 0 n)) (seq 0 m).
+Proof.
+  intros A g m n. induction m as [|m IH].
+  - reflexivity.
+  - replace (S m * n)%nat with (m * n + n)%nat by lia. rewrite seq_app, map_app, IH.
+    rewrite seq_S, flat_map_app. cbn [flat_map plus]. rewrite app_nil_r. f_equal.
+    rewrite (seq_add n (m * n)), map_map. reflexivity.
+Qed.
+
+Lemma zrange_mul_split : forall (A : Type) (g : Z -> A) m n, 0 <= m -> 0 <= n ->
+  map g (zrange (m * n)) = flat_map (fun j => map (fun i => g (j * n + i)) (zrange n)) (zrange m).
+Proof.
+  intros A g m n Hm Hn. unfold zrange. rewrite Z2Nat.inj_mul by assumption.
+  rewrite map_map. rewrite (seq_mul_split A (fun x => g (Z.of_nat x)) (Z.to_nat m) (Z.to_nat n)).
+  rewrite flat_map_concat_map, flat_map_concat_map. f_equal. rewrite map_map. apply map_ext. intro j.
+  rewrite map_map. apply map_ext. intro i.
+  f_equal. rewrite Nat2Z.inj_add, Nat2Z.inj_mul, Z2Nat.id by assumption. reflexivity.
+Qed.
+
+Lemma flat_map_ext_in : forall (A B : Type) (f g : A -> list B) l, (forall x, f x = g x) -> flat_map f l = flat_map g l.
+Proof. intros. induction l; simpl; [reflexivity | rewrite H, IHl; reflexivity]. Qed.
+
+Lemma flat_map_flat_map : forall (A B C : Type) (f : A -> list B) (g : B -> list C) l,
+  flat_map g (flat_map f l) = flat_map (fun x => flat_map g (f x)) l.
+Proof. intros. induction l; simpl; [reflexivity |]. rewrite flat_map_app, IHl. reflexivity. Qed.
+
+Lemma flat_map_map : forall (A B C : Type) (f : A -> B) (g : B -> list C) l,
+  flat_map g (map f l) = flat_map (fun x => g (f x)) l.
+Proof. intros. induction l; simpl; [reflexivity | rewrite IHl; reflexivity]. Qed.
+
+(** one merge step: a dimension that is whole in the file and in the array (n = its extent everywhere, start 0) can be
+    folded into the next one without moving any element *)
+Lemma cells_merge : forall n a0 w0 s0 f0 rest, 0 <= n -> 0 <= w0 ->
+  cells ((n, n, 0, n) :: (a0, w0, s0, f0) :: rest) = cells ((a0 * n, w0 * n, s0 * n, f0 * n) :: rest).
+Proof.
+  intros n a0 w0 s0 f0 rest Hn Hw. cbn [cells].
+  rewrite flat_map_flat_map. apply flat_map_ext_in. intro q.
+  rewrite flat_map_map.
+  rewrite (zrange_mul_split _ (fun i => (i + a0 * n * fst q, s0 * n + i + f0 * n * snd q)) w0 n Hw Hn).
+  apply flat_map_ext_in. intro j. apply map_ext. intro i. cbn [fst snd]. f_equal; ring.
+Qed.
+
+Definition gdim_ok (d : gdim) : Prop := match d with (a, w, s, f) => 0 <= w <= a /\ 0 <= s /\ s + w <= f end.
+
+(** DFSDIgetslice's dimension collapse leaves every element of the window at the same place of the caller's array and
+    takes it from the same place of the file, in the same order *)
+Lemma collapse_preserves_cells : forall fuel l, Forall gdim_ok l -> cells (collapse fuel l) = cells l /\ Forall gdim_ok (collapse fuel l).
+Proof.
+  induction fuel as [|k IH]; intros l Hl; [split; [reflexivity | assumption] |].
+  cbn [collapse]. destruct l as [|[[[a1 w1] s1] f1] [|[[[a0 w0] s0] f0] rest]]; try (split; [reflexivity | assumption]).
+  destruct (collapse_break (a1, w1, s1, f1)) eqn:B; [split; [reflexivity | assumption] |].
+  inversion Hl as [|? ? H1 Hl']; subst. inversion Hl' as [|? ? H0 Hrest]; subst.
+  cbn [gdim_ok] in H1, H0. destruct H1 as ([Hw1 Ha1] & Hs1 & Hf1). destruct H0 as ([Hw0 Ha0] & Hs0 & Hf0).
+  destruct (collapse_only_whole_dimensions a1 w1 s1 f1 B Ha1 Hs1 Hf1) as (Ea & Es & Ef). subst a1 s1 f1.
+  assert (OK : Forall gdim_ok ((a0 * w1, w0 * w1, s0 * w1, f0 * w1) :: rest)).
+  { constructor; [| assumption]. cbn [gdim_ok]. repeat split; try nia. }
+  destruct (IH _ OK) as [E1 E2]. split; [| exact E2].
+  rewrite E1. symmetry. apply cells_merge; lia.
+Qed.
+
+(* ------------------------------------------------------------------ deepening: values across the interfaces *)
+Lemma chunk_nil : forall fuel w, chunk fuel w [] = [].
+Proof. destruct fuel; reflexivity. Qed.
+
+Lemma chunk_concat : forall els fuel w, (0 < w)%nat -> Forall (fun e => length e = w) els -> (length els <= fuel)%nat ->
+  chunk fuel w (concat els) = els.
+Proof.
+  induction els as [|e es IH]; intros fuel w Hw HF Hf.
+  - apply chunk_nil.
+  - inversion HF as [|? ? He HF']; subst. destruct fuel as [|k]; [simpl in Hf; lia |].
+    cbn [concat chunk]. destruct e as [|x e']; [simpl in Hw; lia |].
+    cbn [app]. change (x :: e' ++ concat es) with ((x :: e') ++ concat es).
+    rewrite firstn_exact, skipn_exact by reflexivity. f_equal. apply IH; auto. simpl in Hf; lia.
+Qed.
+
+Lemma concat_length_ge : forall (els : list (list Z)) w, (0 < w)%nat -> Forall (fun e => length e = w) els ->
+  (length els <= length (concat els))%nat.
+Proof. induction 2; simpl; [lia |]. rewrite app_length. lia. Qed.
+
+Lemma convert_concat : forall nt els, 0 < ntsize nt ->
+  Forall (fun e => Z.of_nat (length e) = ntsize nt) els -> convert nt (concat els) = concat (conv_elems nt els).
+Proof.
+  intros nt els Hs HF. unfold convert. f_equal. f_equal.
+  assert (HF' : Forall (fun e => length e = Z.to_nat (ntsize nt)) els).
+  { eapply Forall_impl; [| exact HF]. intros e He. cbn in He. lia. }
+  apply chunk_concat; [lia | assumption | apply concat_length_ge with (w := Z.to_nat (ntsize nt)); [lia | assumption]].
+Qed.
+
+Lemma conv_elems_lengths : forall nt els w, Forall (fun e => Z.of_nat (length e) = w) els ->
+  Forall (fun e => Z.of_nat (length e) = w) (conv_elems nt els).
+Proof.
+  intros nt els w H. unfold conv_elems. destruct (swap_needed nt); [| assumption].
+  induction H; simpl; constructor; auto. rewrite rev_length. assumption.
+Qed.
+
+Lemma rev_single : forall (e : list Z), length e = 1%nat -> rev e = e.
+Proof. intros [|x [|y e]] H; simpl in H; try discriminate; reflexivity. Qed.
+
+(** converting with the writer's type and then with the type the reader decoded gives the values back *)
+Lemma conv_elems_roundtrip : forall nt ty els,
+  (swap_needed ty = swap_needed nt \/ ntsize nt = 1) -> Forall (fun e => Z.of_nat (length e) = ntsize nt) els ->
+  conv_elems ty (conv_elems nt els) = els.
+Proof.
+  intros nt ty els H HF. unfold conv_elems.
+  assert (RR : map (@rev Z) (map (@rev Z) els) = els).
+  { rewrite map_map. rewrite <- (map_id els) at 2. apply map_ext. intro; apply rev_involutive. }
+  destruct H as [E | E1].
+  - rewrite E. destruct (swap_needed nt); [exact RR | reflexivity].
+  - assert (R1 : map (@rev Z) els = els).
+    { rewrite <- (map_id els) at 2. apply map_ext_in. intros e He. apply rev_single.
+      rewrite Forall_forall in HF. specialize (HF e He). lia. }
+    destruct (swap_needed nt), (swap_needed ty); rewrite ?R1; auto.
+Qed.
+
+Definition nt_conv_check (nt : Z) : bool :=
+  ((Bool.eqb (swap_needed (shown_nt nt)) (swap_needed nt)) || (ntsize nt =? 1)) && (ntsize (shown_nt nt) =? ntsize nt).
+Lemma nt_conv_check_all : forallb nt_conv_check nt_all = true.
+Proof. vm_compute. reflexivity. Qed.
+
+Lemma convert_roundtrip : forall nt els, In nt nt_all ->
+  Forall (fun e => Z.of_nat (length e) = ntsize nt) els ->
+  convert (shown_nt nt) (convert nt (concat els)) = concat els.
+Proof.
+  intros nt els Hnt HF.
+  pose proof (proj1 (forallb_forall nt_conv_check nt_all) nt_conv_check_all nt Hnt) as C.
+  unfold nt_conv_check in C. apply andb_true_iff in C. destruct C as [C1 C2]. apply Z.eqb_eq in C2.
+  destruct (nt_roundtrip nt Hnt) as (_ & _ & _ & _ & _ & Hpos).
+  rewrite convert_concat by assumption.
+  rewrite convert_concat; [| rewrite C2; assumption | rewrite C2; apply conv_elems_lengths; assumption].
+  rewrite conv_elems_roundtrip; [reflexivity | | assumption].
+  apply orb_true_iff in C1. destruct C1 as [C1 | C1]; [left; apply Bool.eqb_prop; assumption | right; apply Z.eqb_eq; assumption].
+Qed.
+
+Lemma get_past_sd_var : forall v b st', v_data_ref v <> 0 ->
+  get (sd_write_var v ++ (DFTAG_SD, v_data_ref v, b) :: st') DFTAG_SD (v_data_ref v) = Some b.
+Proof. intros. unfold sd_write_var. cbn [app get]. rewrite !Z.eqb_refl. reflexivity. Qed.
+Lemma get_past_dfsd : forall v b st', v_data_ref v <> 0 ->
+  get (dfsd_put v ++ (DFTAG_SD, v_data_ref v, b) :: st') DFTAG_SD (v_data_ref v) = Some b.
+Proof. intros. unfold dfsd_put. cbn [app get]. rewrite !Z.eqb_refl. reflexivity. Qed.
+
+(** END TO END at the level of the element store: a dataset written through SD (hdf_write_var + the data element)
+    or through DFSD (DFSDIputndg + the data element) is handed back -- rank, extents, type name AND every value -- by the
+    SD reader on the NDG path, by the SD reader on the Vgroup path and by the DFSD reader, whichever of the two wrote it *)
+Lemma sds_values_agree : forall v els st', var_ok v -> v_data_ref v <> 0 ->
+  Forall (fun e => Z.of_nat (length e) = ntsize (v_nt v)) els ->
+  let data := concat els in
+  let shown := (zlen (v_dims v), v_dims v, same_type (v_nt v), v_data_ref v) in
+  read_values ndg_view (sd_write_full v data st') (sd_ndg_members v) = Some (shown, data) /\
+  read_values_vg (sd_write_full v data st') (sd_write_vg v) = Some (shown, data) /\
+  read_values dfsd_view (sd_write_full v data st') (sd_ndg_members v) = Some (shown, data) /\
+  read_values ndg_view (dfsd_put_full v data st') [(DFTAG_SD, v_data_ref v); (DFTAG_SDD, v_ref v)] = Some (shown, data) /\
+  read_values dfsd_view (dfsd_put_full v data st') [(DFTAG_SD, v_data_ref v); (DFTAG_SDD, v_ref v)] = Some (shown, data).
+Proof.
+  intros v els st' Hv Hd HF data shown.
+  pose proof Hv as (_ & _ & _ & Hnt & _).
+  destruct (nt_roundtrip _ Hnt) as (_ & _ & Hsame & _).
+  destruct (sds_readers_agree v ((DFTAG_SD, v_data_ref v, convert (v_nt v) data) :: st') Hv) as (A & B & C & _ & _).
+  destruct (sds_readers_agree v ((DFTAG_SD, v_data_ref v, convert (v_nt v) data) :: st') Hv) as (_ & _ & _ & D & E).
+  pose proof (convert_roundtrip (v_nt v) els Hnt HF) as RT. rewrite Hsame in RT.
+  unfold read_values, read_values_vg, sd_write_full, dfsd_put_full.
+  rewrite A, B, C, D, E. rewrite get_past_sd_var, get_past_dfsd by assumption.
+  fold data in RT. rewrite RT. repeat split; reflexivity.
+Qed.
+
+(* ------------------------------------------------ deepening: every Ref.* slot of the writer, generically *)
+Section SlotProofs.
+  Variable A : Type.
+  Variable present : A -> bool.
+  Variable dflt : A.
+  Variable oneshot : bool.
+
+  Definition sl_ok (st : slot A) : Prop :=
+    (sl_ref st = -1 -> sl_val st = dflt \/ present (sl_val st) = false) /\
+    (0 < sl_ref st -> sl_written st = sl_val st) /\ -1 <= sl_ref st.
+
+  Definition sl_put_ok (p : A * option A) : Prop :=
+    match snd p with Some x => x = fst p | None => fst p = dflt \/ present (fst p) = false end.
+
+  Lemma sl_ok_step : forall st op, sl_ok st -> (match op with SlPut r => 0 < r | _ => True end) ->
+    sl_ok (fst (sl_step true true oneshot present dflt st op)).
+  Proof.
+    intros st op (H1 & H2 & H3) Hop. destruct op as [v | | r]; cbn [sl_step fst].
+    - unfold sl_set, sl_ok; cbn. repeat split; intros; try lia.
+    - unfold sl_forget, sl_ok; cbn. repeat split; intros; try lia. left; reflexivity.
+    - unfold sl_put. destruct (Z.eqb_spec (sl_ref st) 0) as [E | E].
+      + destruct (present (sl_val st)) eqn:P; cbn [fst snd]; destruct oneshot; unfold sl_ok; cbn;
+          repeat split; intros; try lia; auto.
+      + destruct (Z.ltb_spec 0 (sl_ref st)); cbn [fst snd]; destruct oneshot; unfold sl_ok; cbn;
+          repeat split; intros; try lia; auto.
+  Qed.
+
+  Lemma sl_put_out_ok : forall st r, sl_ok st -> sl_put_ok (sl_val st, snd (sl_put present oneshot dflt st r)).
+  Proof.
+    intros st r (H1 & H2 & H3). unfold sl_put, sl_put_ok.
+    destruct (Z.eqb_spec (sl_ref st) 0) as [E | E].
+    - destruct (present (sl_val st)) eqn:P; cbn [fst snd]; auto.
+    - destruct (Z.ltb_spec 0 (sl_ref st)); cbn [fst snd]; [apply H2; assumption | apply H1; lia].
+  Qed.
+
+  Definition slop_ok (op : slot_op A) : Prop := match op with SlPut r => 0 < r | _ => True end.
+
+  (** for every sequence of set / forget / put: the record each dataset refers to holds the value in effect, and a
+      dataset without record has the default (nothing set) *)
+  Lemma sl_run_ok : forall ops st, sl_ok st -> Forall slop_ok ops ->
+    Forall sl_put_ok (sl_run true true oneshot present dflt st ops).
+  Proof.
+    induction ops as [|op ops IH]; intros st Hst Hops; cbn [sl_run]; [constructor |].
+    inversion Hops as [|? ? Hop Hrest]; subst.
+    pose proof (sl_ok_step st op Hst Hop) as Hst'.
+    destruct (sl_step true true oneshot present dflt st op) as [st' out] eqn:E. cbn [fst] in Hst'.
+    apply Forall_app. split; [| apply IH; assumption].
+    destruct op as [v | | r]; cbn [sl_step] in E.
+    - inversion E; subst. constructor.
+    - inversion E; subst. constructor.
+    - destruct (sl_put present oneshot dflt st r) as [st2 rec] eqn:P. inversion E; subst. constructor; [| constructor].
+      pose proof (sl_put_out_ok st r Hst) as Q. rewrite P in Q. exact Q.
+  Qed.
+
+  Lemma sl_initial_ok : sl_ok (mkSlot dflt (-1) dflt).
+  Proof. unfold sl_ok; cbn. repeat split; intros; try lia. left; reflexivity. Qed.
+End SlotProofs.
+
+(** the two instances, with the setter / reset behaviour the translator read off dfsd.c *)
+Lemma luf_session_ok : forall ops, Forall (slop_ok luf_value) ops ->
+  Forall (sl_put_ok luf_value (fun _ => true) (None, [])) (luf_run (mkSlot (None, []) (-1) (None, [])) ops).
+Proof. intros. apply (sl_run_ok luf_value (fun _ => true) (None, []) false); [apply sl_initial_ok | assumption]. Qed.
+
+Lemma range_session_ok : forall ops, Forall (slop_ok range_value) ops ->
+  Forall (sl_put_ok range_value (fun v => match v with Some _ => true | None => false end) None)
+         (range_run (mkSlot None (-1) None) ops).
+Proof.
+  intros. apply (sl_run_ok range_value (fun v => match v with Some _ => true | None => false end) None true);
+    [apply sl_initial_ok | assumption].
+Qed.
+
+(* ------------------------------------------------------------ deepening: 8-bit pixels across GR / DFR8 / DF24 *)
+Lemma get_img_past_gr : forall m b st', gr_compat m = true -> ri_img_tag m = DFTAG_RI \/ ri_img_tag m = DFTAG_CI ->
+  get (gr_put m ++ (ri_img_tag m, ri_img_ref m, b) :: st') (ri_img_tag m) (ri_img_ref m) = Some b.
+Proof.
+  intros m b st' Hg Ht. unfold gr_put. rewrite Hg. cbn [app get].
+  destruct Ht as [-> | ->]; cbn; rewrite !Z.eqb_refl; reflexivity.
+Qed.
+Lemma get_img_past_dfr8 : forall m b st', ri_img_tag m = DFTAG_RI \/ ri_img_tag m = DFTAG_CI ->
+  get (dfr8_put m ++ (ri_img_tag m, ri_img_ref m, b) :: st') (ri_img_tag m) (ri_img_ref m) = Some b.
+Proof.
+  intros m b st' Ht. unfold dfr8_put. cbn [app get].
+  destruct Ht as [-> | ->]; cbn; rewrite !Z.eqb_refl; reflexivity.
+Qed.
+
+(** an uncompressed 8-bit image written by GR (with its compatibility group) or by DFR8 is handed back, description
+    and every pixel, by DFR8getrig+element read and by DFGRgetrig+element read *)
+Lemma raster8_values_agree : forall m pixels st', ri_ok m -> ri_ncomp m = 1 -> ri_ctag m = 0 ->
+  (gr_compat m = true ->
+     rig_read_pixels dfr8_view (gr_put_full m pixels st') (gr_members m) = Some (rview_of m MFGR_INTERLACE_PIXEL, pixels) /\
+     rig_read_pixels dfgr_view (gr_put_full m pixels st') (gr_members m) = Some (rview_of m MFGR_INTERLACE_PIXEL, pixels)) /\
+  rig_read_pixels dfr8_view (dfr8_put_full m pixels st') (dfr8_members m) = Some (rview_of m (ri_il m), pixels) /\
+  rig_read_pixels dfgr_view (dfr8_put_full m pixels st') (dfr8_members m) = Some (rview_of m (ri_il m), pixels).
+Proof.
+  intros m pixels st' Hm Hc Hz. pose proof Hm as (_ & _ & _ & _ & _ & _ & _ & Htag & _).
+  split; [intro Hg | ].
+  - destruct (gr_rig_read_by_old m ((ri_img_tag m, ri_img_ref m, pixels) :: st') Hm Hg) as [A B].
+    unfold rig_read_pixels, gr_put_full. rewrite A, (B Hc). unfold rview_of. cbn [rv_ctag rv_img_tag rv_img_ref].
+    rewrite Hz, Z.eqb_refl. rewrite get_img_past_gr by assumption. split; reflexivity.
+  - destruct (dfr8_rig_roundtrip m ((ri_img_tag m, ri_img_ref m, pixels) :: st') Hm Hc) as [A B].
+    unfold rig_read_pixels, dfr8_put_full. rewrite A, B. unfold rview_of. cbn [rv_ctag rv_img_tag rv_img_ref].
+    rewrite Hz, Z.eqb_refl. rewrite get_img_past_dfr8 by assumption. split; reflexivity.
+Qed.
